@@ -207,6 +207,9 @@ func (e *Exec) evalExternal(call *ast.CallExpr, st *State, ctx *Ctx) []string {
 				}
 			}
 		}
+	case "os.Environ":
+		e.note("os.Environ() is the constant osEnviron: the environment does not change during an evaluation (assumed)")
+		return []string{"osEnviron"}
 	case "os.Exit":
 		e.evalArgs(call, st, ctx)
 		return nil
@@ -338,6 +341,13 @@ func (e *Exec) sweepLiteral(lit *ast.FuncLit, st *State, ctx *Ctx) {
 	e.note("function literal passed to external code is executed from an arbitrary state (any number of calls, unknown arguments)")
 	run := st.clone()
 	e.havoc(run, vars, fields)
+	e.litN++
+	litKey := fmt.Sprintf("closure#%d", e.litN)
+	for v := range vars {
+		if t, ok := run.env[v]; ok {
+			run.ghosts[v.Name()+"@entry"] = t
+		}
+	}
 	for _, f := range lit.Type.Params.List {
 		for _, name := range f.Names {
 			if pv, ok := info.Defs[name].(*types.Var); ok {
@@ -354,7 +364,21 @@ func (e *Exec) sweepLiteral(lit *ast.FuncLit, st *State, ctx *Ctx) {
 	for i := 0; i < sig.Results().Len(); i++ {
 		fr.resTypes = append(fr.resTypes, sig.Results().At(i).Type())
 	}
-	fr.ret = func(*State, []string) {}
+	fr.ret = func(st2 *State, vals []string) {
+		// closure postconditions (contract block `closure N`): checked at every return of the literal
+		if c := e.fi.Contract; c != nil {
+			if sp, ok := c.Loops[litKey]; ok {
+				names := map[string]string{}
+				if len(vals) > 0 {
+					names["result"] = vals[0]
+				}
+				for i, cl := range sp.Invariants {
+					goal := e.clause(cl.X, st2, names, lit.Body.Rbrace-1, info, clauseInv)
+					e.emit(st2, "post", fmt.Sprintf("%s.ensures[%d]", litKey, i+1), goal, cl.Tags, lit.Pos(), cl.Src)
+				}
+			}
+		}
+	}
 	run.path = append(run.path, "lit")
 	e.execBlock(lit.Body.List, run, &Ctx{frame: fr}, func(*State) {})
 	e.havoc(st, vars, fields)
